@@ -141,6 +141,7 @@ PROPS = {
         title='Alternative attribute spellings are interchangeable',
         theorems=[],
         streams=[stream('spell', 'whole', faults=0.0, n=(1500, 20000))],
+        k2=['eq', 'hash', 'ord', 'debug', 'clone', 'default', 'into'], k2_n=(40, 300),
         direct=('c14', (700, 8000)),
     ),
     'C15': dict(
